@@ -194,11 +194,13 @@ func appendTextValue(buf *[]byte, v slog.Value, colorful bool) {
 	case slog.KindAny, slog.KindLogValuer:
 		va := v.Any()
 		if vv, ok := va.(encoding.TextMarshaler); ok {
-			if data, err := vv.MarshalText(); err != nil {
-				appendTextString(buf, err.Error())
-			} else {
-				appendTextString(buf, string(data))
-			}
+			appendTextString(buf, safeCall(vv, func() string {
+				data, err := vv.MarshalText()
+				if err != nil {
+					return err.Error()
+				}
+				return string(data)
+			}))
 		} else if vv, ok := va.(AnsiString); ok {
 			if colorful && vv.Prefix != "" {
 				*buf = append(*buf, vv.Prefix...)
@@ -208,7 +210,7 @@ func appendTextValue(buf *[]byte, v slog.Value, colorful bool) {
 				appendTextString(buf, vv.Value)
 			}
 		} else if vv, ok := va.(error); ok {
-			appendTextString(buf, vv.Error())
+			appendTextString(buf, safeCall(vv, vv.Error))
 		} else if vv, ok := va.([]byte); ok {
 			appendTextString(buf, string(vv))
 		} else {
